@@ -1512,8 +1512,115 @@ def oracle_C22(run):
     return out
 
 
+# ---------------------------------------------------------------------------
+# C16  Content-Length (RFC 7540 8.1.2.6), judged per stream from the raw frames of an inbound message
+# ---------------------------------------------------------------------------
+def _hdr_get(hs, name):
+    for n, v in hs:
+        if n == name:
+            return v
+    return None
+
+
+def oracle_C16(run):
+    """tracks, per (connection, stream), the message the peer is sending: the decoded header blocks (from the real
+    decoder's record) and DATA payload totals; judges deliveries of exactly one complete frame"""
+    out = []
+    client = roles(run)
+    msg = {}        # (c, sid) -> {'cl': int|None|'bad', 'total': int, 'nobody': bool, 'started': bool}
+    method = {}     # (c, sid) -> request method the client sent (first header block only)
+    for i, (op, ol, ml, obs) in enumerate(run.log):
+        if obs is None:
+            continue
+        o = op['op']
+        c = conn_of(op)
+        sb = obs['snap_before']
+        r = res(obs)
+        if o == 'send_headers' and client[c] and r[0] == 'ok' and op['sid'] not in sb['streams']:
+            for n, v, _ in op['headers']:
+                nb = n.encode('utf-8') if isinstance(n, str) else n
+                if nb.strip().lower() == b':method' and (c, op['sid']) not in method:
+                    method[(c, op['sid'])] = (v.encode('utf-8') if isinstance(v, str) else v).strip()
+        if not is_recv(op):
+            continue
+        data = obs.get('xfer_data') if o == 'xfer' else op['data']
+        rfs = raw_frames(data) if before_buf_empty(run, i, c) and buflen(ol) == '0' else None
+        if rfs is None or len(rfs) != 1 or sb['state'] == 'CLOSED':
+            # not judged; forget what we tracked for this connection, later frames cannot be attributed safely
+            for k in [k for k in msg if k[0] == c]:
+                msg[k]['started'] = False
+            continue
+        f = rfs[0]
+        sid = f['sid']
+        st = sb['streams'].get(sid)
+        key = (c, sid)
+        body_err = r[0] == 'exc' and r[1] == 'InvalidBodyLengthError'
+        if f['type'] == wire.HEADERS and (f['flags'] & 4):
+            recs = obs['dec_recs']
+            if not recs or recs[-1]['res'][0] != 'ok':
+                msg.pop(key, None)
+                continue
+            hs = [(bytes(n), bytes(v)) for n, v in recs[-1]['res'][1]]
+            status = _hdr_get(hs, b':status')
+            cl = _hdr_get(hs, b'content-length')
+            first = st is None or not st[6]          # no headers received yet on this stream
+            if not first:
+                # trailers: END_STREAM completes the message
+                m = msg.get(key)
+                if m and m['started'] and (f['flags'] & 1) and r[0] == 'ok':
+                    want = 0 if m['nobody'] else m['cl']
+                    if want is not None and want != 'bad' and m['total'] != want:
+                        out.append(fail('incomplete-body-accepted', i, total=m['total'], content_length=want, at='trailers'))
+                continue
+            if status is not None and status.startswith(b'1'):
+                continue                                  # informational: sets nothing
+            nobody = (client[c] and method.get(key) == b'HEAD') or status in (b'204', b'304')
+            val = None
+            if cl is not None:
+                try:
+                    val = int(cl, 10)
+                except ValueError:
+                    val = 'bad'
+            msg[key] = {'cl': val, 'total': 0, 'nobody': nobody, 'started': r[0] == 'ok'}
+            if (f['flags'] & 1):
+                want = 0 if nobody else val
+                if r[0] == 'ok' and want not in (None, 'bad') and want != 0:
+                    out.append(fail('incomplete-body-accepted', i, total=0, content_length=want, at='headers'))
+                elif body_err and (want is None or want == 0):
+                    out.append(fail('complete-message-rejected', i, content_length=val, nobody=nobody, at='headers'))
+        elif f['type'] == wire.DATA:
+            m = msg.get(key)
+            if not m or not m['started'] or st is None or st[0] not in ('OPEN', 'HALF_CLOSED_LOCAL'):
+                continue
+            pl = f['payload']
+            if f['flags'] & 8:
+                if not pl or pl[0] >= len(pl):
+                    continue
+                n = len(pl) - 1 - pl[0]
+            else:
+                n = len(pl)
+            want = 0 if m['nobody'] else m['cl']
+            total = m['total'] + n
+            end = bool(f['flags'] & 1)
+            if want in (None, 'bad'):
+                if body_err and want is None:
+                    out.append(fail('body-rejected-without-content-length', i))
+                m['total'] = total
+                continue
+            must_fail = total > want or (end and total != want)
+            if must_fail and r[0] == 'ok':
+                out.append(fail('wrong-body-length-accepted', i, total=total, content_length=want, end=end, nobody=m['nobody']))
+            elif not must_fail and body_err:
+                out.append(fail('right-body-length-rejected', i, total=total, content_length=want, end=end, nobody=m['nobody']))
+            if r[0] == 'ok':
+                m['total'] = total
+            else:
+                m['started'] = False
+    return out
+
+
 ORACLES = {
     'C02': oracle_C02, 'C03': oracle_C03, 'C04': oracle_C04, 'C05': oracle_C05, 'C07': oracle_C07, 'C08': oracle_C08,
-    'C09': oracle_C09, 'C10': oracle_C10, 'C12': oracle_C12, 'C13': oracle_C13, 'C17': oracle_C17, 'C18': oracle_C18,
+    'C09': oracle_C09, 'C10': oracle_C10, 'C12': oracle_C12, 'C16': oracle_C16, 'C13': oracle_C13, 'C17': oracle_C17, 'C18': oracle_C18,
     'C19': oracle_C19, 'C21': oracle_C21, 'C22': oracle_C22, 'C24': oracle_C24, 'C26': oracle_C26, 'C27': oracle_C27, 'C29': oracle_C29,
 }
